@@ -50,6 +50,7 @@ for arch, vdef in (("avx2", "VEC_LEN=32"), ("sse", "VEC_LEN=16")):
     for nmax in (8,):
         PROPS["C05"]["jobs"].append(dict(
             id="C05.parseStringInplace@" + arch, src="c05_string.c", harness="h_parseStringInplace", units=sbu, defs=[vdef, "NMAX=%d" % nmax], arch=arch,
+            thorough_only=True,
             route="B(raw length<=%d)" % nmax, bound="raw literal length <= %d" % nmax, function="parseStringInplace", unwind=nmax + VL + 14, object_bits=14, replay="parsestring", timeout=1500,
             cbmc_unwindset="parseStringInplace.0:%d,parseStringInplace.1:%d,parseStringInplace.2:%d,parseStringInplace.3:%d,parseStringInplace.4:%d,parseStringInplace.5:%d,parseStringInplace.6:2" % (
                 nmax // VL + 3, nmax // 2 + 2, VL // 8 + 2, nmax // VL + 3, VL // 8 + 2, nmax // 2 + 2),
@@ -121,10 +122,6 @@ C11_JOBS.append(dict(
     route="B(path<=3, back-edges<=2)", bound="path length <= 3; each goto back-edge (query, obj_key) traversed at most 2 times; any len <= 2^31-65",
     function="SkipScanner::GetOnDemand (driver) + wrapper slice construction", unwind_paths=3, cbmc_unwindset="h_GetOnDemand.0:4", object_bits=12, timeout=1500, replay="ondemand", solver="cadical",
     flags=["--no-malloc-may-fail"], gi_flags=["--no-malloc-may-fail"],
-    # `sn = data + pos - 1 - sp` is evaluated before the `if (!skips)` test; after a failed SkipString pos may be len + 1, so
-    # data + pos is formed two past the end (never dereferenced): formally undefined pointer arithmetic, reported as an observation
-    observe=[(r"pointer arithmetic: pointer outside object bounds in data \+ \(signed long int\)\*pos__r", "SkipScanner_GetOnDemand"),
-             (r"arithmetic overflow on signed - in \(\(data \+ \(signed long int\)\*pos__r\) - \(signed long int\)1\) - sp", "SkipScanner_GetOnDemand")],
     claims="bounded, plain CBMC, every scanner callee replaced by the executable form of its own contract (generated by tools/slice.py from the contract text enforced in the callee's job): every callee precondition holds at its call site (incl. the key buffer handed to parseStringInplace: closing quote 32 bytes before its end); the driver's own reads (memcpy of the raw key, memcmp with the path key) stay inside the input / key buffer; a non-negative result is a slice start with start < pos' <= len"))
 PROPS["C11"] = dict(
     level="other", jobs=C11_JOBS, trusted_base=COMMON_TRUST + MODEL_TRUST, assumptions=[], undecided=[], explanation="")
@@ -267,6 +264,10 @@ for st, sd, off in (("allocated", [], []), ("null", ["NULL_STATE=1"], [])):
     c06("Stack.pushers@" + st, "h_pushers", function="Stack::Push<char> / Push(s,n) / Push5_8 / PushSize / PushUnsafe / PushSizeUnsafe (+Grow, Reserve inlined)", replay="stack_push", defs=sd, checks_off=off,
         claims="every emitter writes only inside the capacity it reserved, appends the stated number of bytes, keeps earlier contents; Grow(k) followed by unchecked pushes of <= k bytes stays inside the capacity" + note),
     ]
+C06_JOBS.append(dict(id="C06.SerializeImpl.reservations", src="c06_serialize.c", harness="h_SerializeImpl", units=["SerializeImpl"], defs=["NODES=6"], arch="-",
+    route="B(each goto back-edge <= 1 traversal)", bound="each goto back-edge of the driver traversed at most once (root plus the first steps into it: every node kind as root and as first child/member), any sizes, any initial buffer size/capacity",
+    function="SerializeImpl (driver) against the extent contracts of Stack and of the emitters", unwind_paths=2, cbmc_unwindset="h_SerializeImpl.0:7", timeout=900, replay="serialize",
+    claims="bounded, plain CBMC: every unchecked push is covered by the Reserve/Grow before it (6n+35 per string, 33 per number, 8 per literal, 3 / 2 per bracket, n+1 per raw value); Quote / I64toa / U64toa are handed the writable extent their contracts require; the popped separator exists; sonic_assert(0 < rn <= 32)"))
 PROPS["C06"] = dict(level="other", jobs=C06_JOBS, trusted_base=COMMON_TRUST, assumptions=[], undecided=[], explanation="")
 
 
@@ -325,8 +326,8 @@ for src_prop, pick in (("C11", ("GetNonSpaceBits@", "GetNextToken_3@", "GetNextT
 for arch, vdef in ARCHS:
     VL = 32 if arch == "avx2" else 16
     C15_JOBS.append(dict(
-        id="C15.SkipString.exact@" + arch, src="c11_skip.c", harness="h_SkipString_exact", units=arch_units(arch) + ["IsSpace"] + ESC + SKIP_LEAVES, defs=[vdef, "UNIT_SkipString", "SKIPSTRING_EXACT"], arch=arch,
-        route="B(len<=2*VEC_LEN+8)", bound="len <= %d" % (2 * VL + 8), function="SkipString", unwind=2 * VL + 10, object_bits=16, timeout=1200, replay="skipstring", solver="cadical",
+        id="C15.SkipString.exact@" + arch, src="c11_skip.c", harness="h_SkipString_exact", units=arch_units(arch) + ["IsSpace"] + ESC + SKIP_LEAVES, defs=[vdef, "UNIT_SkipString", "SKIPSTRING_EXACT", "LMAX=40"], arch=arch,
+        route="B(len<=40)", bound="len <= 40 (2*VEC_LEN+8 for sse, VEC_LEN+8 for avx2)", function="SkipString", unwind=42, object_bits=16, timeout=1200, replay="skipstring", solver="cadical",
         claims="bounded: for every content, length and start position, the result equals the scalar oracle (first unescaped quote; escaped flag); both instantiations against the same oracle"))
 PROPS["C15"] = dict(level="other", jobs=C15_JOBS, trusted_base=COMMON_TRUST + MODEL_TRUST,
     native=[dict(id="ifunc_forwarders", kind="script", src="tools/ifunc_check.py",
